@@ -24,24 +24,24 @@ type sysQPlan struct {
 	stallAt  int    // rows after which a stalled consumer stops
 	after    string // what ends a stall: resume | cancel | close
 	twoClose bool   // a second goroutine calls Close as well
-	ctxKind  string // the caller's context: std | watch | gated (see q_ctx.go)
+	ctxKind  string // the caller's context: std | cause | watch | gated (see q_ctx.go)
 }
 
 type sysQRun struct {
-	idx      int
-	plan     sysQPlan
-	ctx      context.Context
-	cancel   func()
+	idx    int
+	plan   sysQPlan
+	ctx    context.Context
+	cancel func()
 	// propagate lets a gated caller context's cancellation reach the query's internal context;
 	// holdProp: only the end of the scenario does that
 	propagate func()
 	holdProp  bool
 	r         *bs.Results
-	qid      int64
-	consumer *actor
-	closers  []*actor
-	closeSig chan struct{}
-	resume   chan struct{}
+	qid       int64
+	consumer  *actor
+	closers   []*actor
+	closeSig  chan struct{}
+	resume    chan struct{}
 
 	returned   []int64
 	nextFalse  bool // Next returned false
@@ -58,15 +58,15 @@ type sysQRun struct {
 }
 
 type sysScenario struct {
-	c       *Ctx
-	w       *sysWorld
-	log     *qLog
-	pz      *pauser
-	runs    []*sysQRun
-	plan    string
-	faults  string
-	iterAt  int
-	mainGid int64
+	c           *Ctx
+	w           *sysWorld
+	log         *qLog
+	pz          *pauser
+	runs        []*sysQRun
+	plan        string
+	faults      string
+	iterAt      int
+	mainGid     int64
 	propDelayUs int
 }
 
@@ -87,7 +87,7 @@ func (c *Ctx) genQPlan(i, nq int, evGuess int) sysQPlan {
 	p.stallAt = c.intn(40)
 	p.after = []string{"resume", "cancel", "close"}[c.intn(3)]
 	p.twoClose = c.chance(0.3)
-	p.ctxKind = []string{"std", "std", "std", "watch", "gated"}[c.intn(5)]
+	p.ctxKind = []string{"std", "std", "cause", "watch", "gated"}[c.intn(5)]
 	return p
 }
 
@@ -311,7 +311,8 @@ func runSysScenario(c *Ctx, fixed bool, kind string) (term string, desc map[stri
 			qInReadSeq++
 		case "handoff":
 			p.mode, p.ctxKind = "handoff", "std"
-			p.after = []string{"cancel", "cancel", "close"}[c.intn(3)]
+			// closeheld: Close while the other queries keep every slot; the parked workers never get one
+			p.after = []string{"cancel", "close", "closeheld", "closeheld"}[c.intn(4)]
 		case "bigfilter":
 			p.mode = []string{"drain", "drain", "slow", "cancelAt", "closeAt"}[c.intn(5)]
 			for p.sq.hasPre || (!strings.HasPrefix(p.sq.name, "token") && !strings.HasPrefix(p.sq.name, "fieldtoken") && !strings.HasPrefix(p.sq.name, "field:")) {
@@ -639,8 +640,33 @@ func runSysScenario(c *Ctx, fixed bool, kind string) (term string, desc map[stri
 		c.dist("sys_handoff", fmt.Sprintf("quiet=%v->%s", parked, q.plan.after))
 		// The slots are handed to the parked workers and the query ends right behind that, before the workers
 		// run again: with one P a goroutine made runnable by the channel hand-off cannot run before this one yields.
+		if q.plan.after == "closeheld" {
+			// Close ends the query although nobody gives its parked workers a slot: it may wait for them, and
+			// they wait for a slot or for the end of the query, whichever comes first
+			q.closeAsked.Store(true)
+			closed := make(chan error, 1)
+			go func() { closed <- q.r.Close() }()
+			var cerr error
+			select {
+			case cerr = <-closed:
+			case <-time.After(sysTimeout):
+				c.violation("q-close-hang", fmt.Sprintf("query %d: Close did not return within %v while its workers were parked waiting for a query slot that other queries hold", q.idx, sysTimeout),
+					map[string]any{"plan": sc.plan, "world": w.describe()})
+				releaseHeld()
+				select {
+				case cerr = <-closed:
+				case <-time.After(sysTimeout):
+				}
+			}
+			if cerr != nil {
+				c.violation("q-close-nonnil", "Close returned a non-nil error: "+cerr.Error(), map[string]any{"plan": sc.plan})
+			}
+			releaseHeld()
+			close(q.closeSig)
+		}
 		prev := runtime.GOMAXPROCS(1)
-		if q.plan.after == "cancel" {
+		if q.plan.after == "closeheld" {
+		} else if q.plan.after == "cancel" {
 			q.cancelled.Store(true)
 			bs.VerifEmit("caller.cancel.begin", int64(q.idx), 0, "")
 			releaseHeld()
@@ -682,7 +708,9 @@ func runSysScenario(c *Ctx, fixed bool, kind string) (term string, desc map[stri
 		if q.plan.mode == "stall" && q.r != nil {
 			if kind == "saturate" {
 				// the pipeline must be backed up to the file stage: its last event is the attempt to send a file job
-				sat := waitUntil(func() bool { return lastEventOf(q.qid, "fs.") == "fs.job.try" && logQuiet(2*time.Millisecond, 50*time.Millisecond) }, 3*time.Second)
+				sat := waitUntil(func() bool {
+					return lastEventOf(q.qid, "fs.") == "fs.job.try" && logQuiet(2*time.Millisecond, 50*time.Millisecond)
+				}, 3*time.Second)
 				c.dist("sys_saturated", fmt.Sprintf("%v->%s", sat, q.plan.after))
 			}
 			switch q.plan.after {
